@@ -88,6 +88,13 @@ def run_check(prop, tier):
     known = report.load_known()
     try:
         jobs = mod.jobs(tier, seed, pool)
+        # F-CHUNK: in about a third of the runs the simulated input streams buffer only a window of the file at a time (like a
+        # file stream; an istringstream-like whole-image get area otherwise), window size drawn per run
+        from simlib.prng import Rng
+        for i, j in enumerate(jobs):
+            r = Rng(seed, prop, 'read-window', i)
+            if 'read_window' not in j['plan'] and r.chance(0.35):
+                j['plan']['read_window'] = r.choice([1, 3, 16, 100, 512, 4096, 8191])
         # plans that once exposed a genuine defect (now repaired) are re-run by every check of their property
         regdir = os.path.join(VERIF, 'regressions', prop)
         if os.path.isdir(regdir):
